@@ -83,12 +83,13 @@ theorem cutOver_bound (size ol : Nat) (r : Resp) (hc : Contract r) :
 present during truncation) is no longer than the limit, unless header + question + OPT alone
 exceed it, in which case exactly those are left. -/
 theorem finalLen_truncate_le (size0 : Nat) (r : Resp) (opt : Option Opt) (hc : Contract r) :
-    finalLen r (truncate size0 r opt) opt ≤ max (max size0 minMsgSize) (r.q + optLen? opt) := by
+    finalLen r (truncate false size0 r opt) opt ≤ max (max size0 minMsgSize) (r.q + optLen? opt) := by
   have hb := cutOver_bound (max size0 minMsgSize) (optLen? opt) r hc
   obtain ⟨h1, h2, h3⟩ := hc
   unfold truncate msgTruncate
+  simp only [Bool.false_or]
   by_cases hfit : r.unc + optLen? opt ≤ max size0 minMsgSize
-  · simp only [hfit, ↓reduceIte]
+  · simp only [hfit, decide_true, ↓reduceIte]
     have a5 := h3 r.extra.length
     rw [take_len] at a5
     have a2 : sum (List.take r.ns.length r.ns2) ≤ sum r.ns2 := sum_take_le _ _
@@ -98,7 +99,7 @@ theorem finalLen_truncate_le (size0 : Nat) (r : Resp) (opt : Option Opt) (hc : C
     · have htc' : r.tc = false := by simpa using htc
       simp only [htc', finalLen, take_len, Bool.false_eq_true, ↓reduceIte]
       omega
-  · simp only [hfit, ↓reduceIte]
+  · simp only [hfit, decide_false, Bool.false_eq_true, ↓reduceIte]
     generalize cutOver (max size0 minMsgSize) (optLen? opt) r = c at hb ⊢
     by_cases htc : c.tc = true
     · simp only [htc, ↓reduceIte, finalLen]
@@ -109,35 +110,35 @@ theorem finalLen_truncate_le (size0 : Nat) (r : Resp) (opt : Option Opt) (hc : C
 
 /-! ## `truncate`: TC and the answer section -/
 
-theorem truncate_tc_ka (s : Nat) (r : Resp) (o : Option Opt) :
-    (truncate s r o).tc = true → (truncate s r o).ka = 0 := by
+theorem truncate_tc_ka (x : Bool) (s : Nat) (r : Resp) (o : Option Opt) :
+    (truncate x s r o).tc = true → (truncate x s r o).ka = 0 := by
   unfold truncate
-  by_cases h : (msgTruncate s r o).tc = true
+  by_cases h : (msgTruncate x s r o).tc = true
   · simp [h]
-  · have h' : (msgTruncate s r o).tc = false := by simpa using h
+  · have h' : (msgTruncate x s r o).tc = false := by simpa using h
     simp [h']
 
-theorem msgTruncate_not_dropped (s : Nat) (r : Resp) (o : Option Opt)
-    (h : (msgTruncate s r o).tc = false) :
-    ¬ ((msgTruncate s r o).ka < r.ans.length ∨ (msgTruncate s r o).kn < r.ns.length ∨
-       (msgTruncate s r o).ke < r.extra.length) := by
+theorem msgTruncate_not_dropped (x : Bool) (s : Nat) (r : Resp) (o : Option Opt)
+    (h : (msgTruncate x s r o).tc = false) :
+    ¬ ((msgTruncate x s r o).ka < r.ans.length ∨ (msgTruncate x s r o).kn < r.ns.length ∨
+       (msgTruncate x s r o).ke < r.extra.length) := by
   unfold msgTruncate at h ⊢
-  by_cases hfit : r.unc + optLen? o ≤ max s minMsgSize
+  by_cases hfit : (x || decide (r.unc + optLen? o ≤ max s minMsgSize)) = true
   · simp only [hfit, ↓reduceIte]; omega
-  · simp only [hfit, ↓reduceIte] at h ⊢
+  · simp only [hfit, Bool.false_eq_true, ↓reduceIte] at h ⊢
     unfold cutOver at h ⊢
     dsimp only at h ⊢
     simp only [Bool.or_eq_false_iff, decide_eq_false_iff_not] at h
     omega
 
-theorem truncate_dropped (s : Nat) (r : Resp) (o : Option Opt)
-    (hd : (truncate s r o).ka < r.ans.length ∨ (truncate s r o).kn < r.ns.length ∨
-          (truncate s r o).ke < r.extra.length) :
-    (truncate s r o).tc = true ∧ (truncate s r o).ka = 0 := by
-  by_cases h : (msgTruncate s r o).tc = true
+theorem truncate_dropped (x : Bool) (s : Nat) (r : Resp) (o : Option Opt)
+    (hd : (truncate x s r o).ka < r.ans.length ∨ (truncate x s r o).kn < r.ns.length ∨
+          (truncate x s r o).ke < r.extra.length) :
+    (truncate x s r o).tc = true ∧ (truncate x s r o).ka = 0 := by
+  by_cases h : (msgTruncate x s r o).tc = true
   · unfold truncate; simp [h]
-  · have h' : (msgTruncate s r o).tc = false := by simpa using h
-    have nd := msgTruncate_not_dropped s r o h'
+  · have h' : (msgTruncate x s r o).tc = false := by simpa using h
+    have nd := msgTruncate_not_dropped x s r o h'
     unfold truncate at hd
     simp only [h', Bool.false_eq_true, ↓reduceIte] at hd
     exact absurd hd nd
@@ -181,6 +182,15 @@ theorem lensOf_filterSupported (c : Nat) (os : List EOpt) (h1 : c ≠ codeNSID) 
     · subst hc; simp [h1, h2]
     · simp [hc]
   simp [this]
+
+theorem optsLen_filterSupported_le (os : List EOpt) : optsLen (filterSupported os) ≤ optsLen os := by
+  induction os with
+  | nil => simp [filterSupported, optsLen]
+  | cons e es ih =>
+    unfold filterSupported at ih ⊢
+    by_cases h : (e.code == codeNSID || e.code == codeEXPIRE) = true
+    · simp only [List.filter_cons, h, ↓reduceIte, optsLen]; omega
+    · simp only [List.filter_cons, h, Bool.false_eq_true, ↓reduceIte, optsLen]; omega
 
 theorem optsLen_setOpt_le (c l : Nat) (os : List EOpt) :
     optsLen (setOpt c l os) ≤ optsLen os + 4 + l := by
@@ -293,6 +303,52 @@ theorem addKeepAlive_some_mem (ro o : Opt) (idle : Nat) :
   · have hc' : hasCode codeKeepAlive ro.opts = false := by simpa using hc
     simp only [hc', Bool.false_eq_true, ↓reduceIte]
     exact ⟨o, rfl, fun e he _ => he⟩
+
+@[simp] theorem optLen?_packOpt (hi : Nat) (o : Option Opt) : optLen? (packOpt hi o) = optLen? o := by
+  cases o <;> rfl
+
+@[simp] theorem lensOf?_packOpt (c hi : Nat) (o : Option Opt) :
+    lensOf? c (packOpt hi o) = lensOf? c o := by
+  cases o <;> rfl
+
+@[simp] theorem finalLen_packOpt (r : Resp) (c : Cut) (hi : Nat) (o : Option Opt) :
+    finalLen r c (packOpt hi o) = finalLen r c o := by
+  simp [finalLen]
+
+theorem packOpt_some (hi : Nat) (x : Option Opt) (o : Opt) (h : x = some o) :
+    ∃ o', packOpt hi x = some o' ∧ o'.udpSize = o.udpSize ∧ o'.version = o.version ∧
+      o'.opts = o.opts ∧ o'.extRcode = hi := by
+  subst h
+  exact ⟨_, rfl, rfl, rfl, rfl, rfl⟩
+
+/-- The OPT record of the final message before `Pack` touches its extended-rcode byte. -/
+def prePack (t : Transport) (cfgMax idleMs : Nat) (req : Option Opt) (r : Resp) (draw : Nat) :
+    Option Opt :=
+  if t.hasKeepAlive then addKeepAlive req (normalizeG false t cfgMax req r draw).opt idleMs
+  else (normalizeG false t cfgMax req r draw).opt
+
+theorem serve_opt (t : Transport) (cfgMax idleMs : Nat) (req : Option Opt) (r : Resp)
+    (draw slack : Nat) :
+    (serve t cfgMax idleMs req r draw slack).opt = packOpt r.rcodeHi (prePack t cfgMax idleMs req r draw) :=
+  rfl
+
+theorem serve_cut (t : Transport) (cfgMax idleMs : Nat) (req : Option Opt) (r : Resp)
+    (draw slack : Nat) :
+    (serve t cfgMax idleMs req r draw slack).cut =
+      truncate (tsigAtTruncate req r) (maxDNSSize t.isUdp (advertised req) (t.cap cfgMax)) r
+        (baseOpt false req r) :=
+  rfl
+
+theorem serve_wire (t : Transport) (cfgMax idleMs : Nat) (req : Option Opt) (r : Resp)
+    (draw slack : Nat) :
+    (serve t cfgMax idleMs req r draw slack).wire =
+      finalLen r (serve t cfgMax idleMs req r draw slack).cut (prePack t cfgMax idleMs req r draw) - slack := by
+  simp [serve, serveG, prePack]
+
+theorem serve_emitted_of_unguarded (t : Transport) (h : t.guarded = false) (cfgMax idleMs : Nat)
+    (req : Option Opt) (r : Resp) (draw slack : Nat) :
+    (serve t cfgMax idleMs req r draw slack).emitted = true := by
+  simp [serve, serveG, h]
 
 theorem finalLen_opt_le (r : Resp) (c : Cut) (o o' : Option Opt) (k : Nat)
     (h : optLen? o' ≤ optLen? o + k) : finalLen r c o' ≤ finalLen r c o + k := by
